@@ -38,6 +38,9 @@ def lockFree (n : String) : Bool :=
   | some m => m.found && m.lockAt.isNone && m.lockCalls == 0 && m.explicitUnlocks == 0
   | none => false
 
+/-- number of `cond.Broadcast()` calls in `n` -/
+def broadcasts (n : String) : Option Nat := (find n).bind (fun m => if m.found then some m.broadcasts else none)
+
 /-- exact top-level shape of `n` -/
 def shape (n : String) : Option (List String) := (find n).bind (fun m => if m.found then some m.top else none)
 
